@@ -118,7 +118,22 @@ Theorem C12_handle_other_ids_untouched :
     /\ (forall k', k' <> k -> bw_get w' k' = bw_get w k').
 Proof. exact handle_other_ids_untouched. Qed.
 
+(* The reader goroutine and late / duplicate acknowledgements (serve.go: an acknowledgement for which
+   no call is waiting is looked up, its entry deleted, the packet dropped or left in an abandoned
+   channel): nothing is written — in particular no PUBREL for an unexpected PUBREC —, no flag changes,
+   and on the signaller it is the operation MUnreg. Hence a chain with any number of stray
+   acknowledgements between attempts is a [publish_chain] (MUnreg in bs_ops) and
+   C12_handle_chain_faithful covers the WHOLE wire of the connection, reader included. *)
+Theorem C12_handle_stray_ack_inert :
+  forall w k kd i,
+    bw_wire (serve_stray_ack w k kd i) = bw_wire w
+    /\ (forall k', bc_inited (bw_get (serve_stray_ack w k kd i) k') = bc_inited (bw_get w k')
+                /\ bc_open (bw_get (serve_stray_ack w k kd i) k') = bc_open (bw_get w k'))
+    /\ (bc_inited (bw_get w k) = true -> serve_stray_ack w k kd i = bh_apply_ops w k [MUnreg kd i]).
+Proof. exact stray_ack_inert. Qed.
+
 Print Assumptions C12_handle_chain_faithful.
+Print Assumptions C12_handle_stray_ack_inert.
 Print Assumptions C12_handle_after_pubrec_only_pubrel.
 Print Assumptions C12_handle_independent_of_signaller.
 Print Assumptions C12_handle_qos0_none.
